@@ -168,7 +168,16 @@ func (crashEngine) run(ctx *simrt.Ctx) *simrt.Violation {
 			}
 		}
 		disk := sut.Disk.CloneAt(k, fmt.Sprintf("crash-%s-%d", uid, k))
-		viol := func() *simrt.Violation {
+		viol := func() (rv *simrt.Violation) {
+			// a restarted node that panics while loading its databases did not survive the crash
+			defer func() {
+				if r := recover(); r != nil {
+					if he, ok := r.(simrt.HarnessError); ok {
+						panic(he)
+					}
+					rv = ctx.Violate("restart-panic", "after-restart/boot-or-query-panicked", "crash after durable write %d of %d: the restarted node panicked: %v", k, nwrites, r)
+				}
+			}()
 			rn := simnode.New(simnode.Opts{Disk: disk, StubMempool: true, EditToml: seqToml(recseq)})
 			defer rn.Close()
 			simrt.Settle()
